@@ -109,8 +109,8 @@ def check(ctx):
     for member in members:
         res = mm.run_relation(prog, "RPE", member)
         ctx.analysed["configs"] += 1
+        _guarded_by_length(ctx, res, "C02.1", "RPE", member)
         if first:
-            _guarded_by_length(ctx, res, "C02.1", "RPE")
             _pair_source(ctx, prog, res)
             first = False
         block, family, degrees, _, unit_rpe = mm.ORACLE[member]
